@@ -533,4 +533,415 @@ theorem fit_forms {nw : Network} (hn : NetHyp nw) {s s' : Schedule} {p r : Veh} 
     exact fit_leaf hn hi hd ho hdo hf hne (by assumption) (by assumption) (by assumption) (by assumption)
       (by assumption))
 
+/-! ### dummy tours stay valid under every public modification -/
+
+theorem dok_set {nw : Network} {T : Tours} {k : Veh} {t : Tour} (h : DummiesOK nw T) (ht : DummyOK nw t) :
+    DummiesOK nw (assocSet T k t) := by
+  intro d t' hget
+  rw [assocGet?_assocSet] at hget
+  by_cases e : d = k
+  · simp only [e, ↓reduceIte, Option.some.injEq] at hget; rw [← hget]; exact ht
+  · simp only [e, ↓reduceIte] at hget; exact h d t' hget
+
+theorem dok_erase {nw : Network} {T : Tours} {k : Veh} (h : DummiesOK nw T) : DummiesOK nw (assocErase T k) := by
+  intro d t' hget
+  rw [assocGet?_assocErase] at hget
+  by_cases e : d = k
+  · simp [e] at hget
+  · simp only [e, ↓reduceIte] at hget; exact h d t' hget
+
+theorem dok_addDummy {nw : Network} {T : Tours} {ids : List Veh} {d : Veh} {dt : Tour} (h : DummiesOK nw T)
+    (hdt : DummyOK nw dt) : DummiesOK nw (addDummyTour T ids d dt).1 := dok_set h hdt
+
+theorem dok_of_addDummy_eq {nw : Network} {T a : Tours} {ids b : List Veh} {d : Veh} {dt : Tour}
+    (h : DummiesOK nw T) (hdt : DummyOK nw dt) (e : addDummyTour T ids d dt = (a, b)) : DummiesOK nw a := by
+  have := dok_addDummy (ids := ids) (d := d) h hdt
+  rw [e] at this; exact this
+
+theorem utc_dok {nw : Network} {s : Schedule} {tours dummyTours : Tours} {costs : Nat} {v : Veh} {t : Tour}
+    {r : Tours × Tours × Nat} (hd : DummiesOK nw dummyTours) (ht : s.isDummy v = true → DummyOK nw t)
+    (h : updateTourAndCosts s tours dummyTours costs v t = .ok r) : DummiesOK nw r.2.1 := by
+  unfold updateTourAndCosts at h
+  split at h
+  · rename_i hdum
+    simp only [pure, Except.pure, Except.ok.injEq] at h; rw [← h]
+    exact dok_set hd (ht hdum)
+  · obtain ⟨old, _, h⟩ := bind_ok h
+    obtain ⟨c', _, h⟩ := bind_ok h
+    simp only [pure, Except.pure, Except.ok.injEq] at h; rw [← h]; exact hd
+
+theorem updateTours_dok {nw : Network} {s : Schedule} {w' : Work} {p r : Veh} {newProv : Option Tour}
+    {newRecv : Tour} {moved : List Nat} (hdo : DummiesOK nw s.dummyTours)
+    (hp : s.isDummy p = true → ∀ t, newProv = some t → DummyOK nw t)
+    (hr : s.isDummy r = true → DummyOK nw newRecv)
+    (h : updateTours nw s (Work.ofSchedule s) (some p) newProv r newRecv moved = .ok w') :
+    DummiesOK nw w'.dummyTours := by
+  unfold updateTours at h
+  dsimp only at h
+  inv_do h
+  all_goals (try contradiction)
+  all_goals (try (cases h))
+  all_goals (try (simp only [pure, Except.pure, Except.ok.injEq] at *))
+  all_goals (try subst_vars)
+  all_goals (try dsimp only)
+  all_goals (first
+    | exact utc_dok (utc_dok hdo (fun hdm => hp hdm _ rfl) (by assumption)) hr (by assumption)
+    | exact utc_dok (dok_erase hdo) hr (by assumption)
+    | exact utc_dok hdo hr (by assumption)
+    | trace_state)
+
+/-- what `insert_path` displaces is a piece of the old tour -/
+theorem insert_rm_sublist (nw : Network) (hd : C17.DepotTimes nw) (hw : NodesWF' nw) (t t' : Tour)
+    (path np : List Nat) (hc : TimeChain nw t.nodes) (hne : 0 < t.nodes.length)
+    (h : insertPath nw true t path = .ok (t', some np)) : np.Sublist t.nodes := by
+  unfold insertPath at h
+  obtain ⟨pl, hpl, h⟩ := C12.bind_ok h
+  obtain ⟨c, _, h⟩ := C12.bind_ok h
+  simp only [pure, Except.pure, Except.ok.injEq, Prod.mk.injEq] at h
+  obtain ⟨_, hrm⟩ := h
+  obtain ⟨_, _, h3⟩ := C12.plan_inv nw hd hw t path hc hne pl hpl
+  have : np = pl.old := pathTrusted_some hrm
+  rw [this, h3]
+  unfold insertRef
+  exact slice_sublist _ _ _
+
+theorem tour_pw {nw : Network} (hn : NetHyp nw) {s : Schedule} (hi : ListInv s) (hd : DummyInv s)
+    (ho : ToursOK nw s.tours) (hdo : DummiesOK nw s.dummyTours) {v : Veh} {t : Tour} (h : s.tourOf? v = some t) :
+    PW nw t.nodes ∧ 0 < t.nodes.length := by
+  by_cases hdm : s.isDummy v = true
+  · have := hdo v t (tourOf_dummy hi hd h hdm)
+    exact ⟨this.pw, List.length_pos_iff.mpr this.ne⟩
+  · have hok := ho v t (tourOf_not_dummy h (by simpa using hdm))
+    exact ⟨tourOK_pw hn.dt hn.wf hok, by have := shape_len hok.shape; omega⟩
+
+theorem subPath_pw {nw : Network} {t : Tour} {a b : Nat} {path : List Nat} (hp : PW nw t.nodes)
+    (h : Tour.subPath nw t a b = .ok path) : PW nw path := by
+  obtain ⟨s, e, _, _, hpath, _, _⟩ := subPath_sublist h
+  rw [hpath]; exact pw_sublist (slice_sublist _ _ _) hp
+
+theorem delete_dok {nw : Network} (hn : NetHyp nw) {s s' : Schedule} {v : Veh}
+    (ho : ToursOK nw s.tours) (hdo : DummiesOK nw s.dummyTours)
+    (h : replaceVehicleByDummy nw s v = .ok s') : DummiesOK nw s'.dummyTours := by
+  unfold replaceVehicleByDummy at h
+  inv_do h
+  all_goals (try contradiction)
+  all_goals (try (cases h))
+  all_goals (try (simp only [pure, Except.pure, Except.ok.injEq] at *))
+  all_goals (try subst_vars)
+  all_goals (
+    have hold := unwrapO_ok (by assumption : unwrapO (assocGet? s.tours v) _ = .ok _)
+    have hpw := subPath_pw (tourOK_pw hn.dt hn.wf (ho v _ hold)) (by assumption)
+    try dsimp only
+    first
+    | exact hdo
+    | exact dok_of_addDummy_eq hdo (newDummy_ok hpw (by assumption)) (by assumption)
+    | trace_state)
+
+syntax "same_dummies " ident : tactic
+macro_rules
+  | `(tactic| same_dummies $h:ident) => `(tactic|
+    (inv_do $h
+     all_goals (try contradiction)
+     all_goals (try (cases $h:ident))
+     all_goals rfl))
+
+theorem spawn_dummyTours {nw : Network} {s s' : Schedule} {vt : Nat} {path : List Nat} {v : Veh}
+    (h : spawnVehicleForPath nw s vt path = .ok (s', v)) : s'.dummyTours = s.dummyTours := by
+  unfold spawnVehicleForPath at h
+  same_dummies h
+
+theorem addPath_dummyTours {nw : Network} {s s' : Schedule} {v : Veh} {path : List Nat} {rm : Option (List Nat)}
+    (h : addPathToVehicleTour nw s v path = .ok (s', rm)) : s'.dummyTours = s.dummyTours := by
+  unfold addPathToVehicleTour at h
+  same_dummies h
+
+theorem improve_dummyTours {nw : Network} {s s' : Schedule} {vs : Option (List Veh)}
+    (h : improveDepots nw s vs = .ok s') : s'.dummyTours = s.dummyTours := by
+  unfold improveDepots at h
+  dsimp only at h
+  obtain ⟨_, _, h⟩ := bind_ok h
+  obtain ⟨_, _, h⟩ := bind_ok h
+  same_dummies h
+
+theorem endGreedy_dummyTours {nw : Network} {s s' : Schedule}
+    (h : reassignEndDepotsGreedily nw s = .ok s') : s'.dummyTours = s.dummyTours := by
+  unfold reassignEndDepotsGreedily at h
+  obtain ⟨_, _, h⟩ := bind_ok h
+  same_dummies h
+
+theorem recompute_dummyTours {nw : Network} {s s' : Schedule} {vts : Option (List Nat)}
+    (h : recomputeTransitionsFor nw s vts = .ok s') : s'.dummyTours = s.dummyTours := by
+  unfold recomputeTransitionsFor at h
+  same_dummies h
+
+theorem deleteDummy_dok {nw : Network} {s s1 : Schedule} {d : Veh} (hdo : DummiesOK nw s.dummyTours)
+    (h : deleteDummy s d = .ok s1) : DummiesOK nw s1.dummyTours := by
+  unfold deleteDummy at h
+  inv_do h
+  all_goals (try contradiction)
+  all_goals (try (cases h))
+  all_goals exact dok_erase hdo
+
+theorem dummySpawn_dok {nw : Network} {s s' : Schedule} {d : Veh} {vt : Nat} {v : Veh}
+    (hdo : DummiesOK nw s.dummyTours) (h : spawnToReplaceDummy nw s d vt = .ok (s', v)) :
+    DummiesOK nw s'.dummyTours := by
+  unfold spawnToReplaceDummy at h
+  inv_do h
+  all_goals (try contradiction)
+  all_goals (try (cases h))
+  all_goals (
+    rename_i s1 hdel
+    rw [spawn_dummyTours h]
+    exact deleteDummy_dok hdo hdel)
+
+theorem rmSeg_dok {nw : Network} (hn : NetHyp nw) {s s' : Schedule} {v : Veh} {a b : Nat}
+    (hi : ListInv s) (hd : DummyInv s) (ho : ToursOK nw s.tours) (hdo : DummiesOK nw s.dummyTours)
+    (h : removeSegment nw s v a b = .ok s') : DummiesOK nw s'.dummyTours := by
+  unfold removeSegment at h
+  inv_do h
+  all_goals (try contradiction)
+  all_goals (try (cases h))
+  all_goals (try (simp only [pure, Except.pure, Except.ok.injEq] at *))
+  all_goals (try subst_vars)
+  all_goals (first
+    | exact delete_dok hn ho hdo (by assumption)
+    | (have hv' : s.isVehicle v = true := by simpa using (by assumption : ¬ (!s.isVehicle v) = true)
+       have htour := unwrapO_ok (by assumption : unwrapO (s.tourOf? v) _ = .ok _)
+       rw [(tourOf_vehicle hi hv').1] at htour
+       have hnd := vehicle_not_dummy hi hd hv'
+       have hpw := removed_pw (tourOK_pw hn.dt hn.wf (ho v _ htour)) (by assumption)
+       have hu := utc_dok (nw := nw) hdo (fun hdm => bool_contra hdm hnd) (by assumption)
+       try dsimp only
+       first
+       | exact hu
+       | exact dok_of_addDummy_eq hu (newDummy_ok hpw (by assumption)) (by assumption)
+       | trace_state))
+
+theorem fit_dok {nw : Network} (hn : NetHyp nw) {s s' : Schedule} {p r : Veh} {a b : Nat}
+    (hi : ListInv s) (hd : DummyInv s) (ho : ToursOK nw s.tours) (hdo : DummiesOK nw s.dummyTours)
+    (h : fitReassign nw s p r a b = .ok s') : DummiesOK nw s'.dummyTours := by
+  unfold fitReassign at h
+  inv_do h
+  all_goals (try contradiction)
+  all_goals (try (cases h))
+  all_goals (try (simp only [pure, Except.pure, Except.ok.injEq] at *))
+  all_goals (try subst_vars)
+  all_goals (
+    have hpt := unwrapO_ok (by assumption : unwrapO (s.tourOf? p) _ = .ok _)
+    have hrt := unwrapO_ok (by assumption : unwrapO (s.tourOf? r) _ = .ok _)
+    obtain ⟨_, _, _, _, f5, f6⟩ := fit_loop_facts (p := p) (r := r) hn hi hd ho hdo hpt hrt (by assumption) (by assumption)
+    exact updateTours_dok hdo f5 f6 (by assumption))
+
+theorem override_parts {nw : Network} (hn : NetHyp nw) {s : Schedule} {p r : Veh} {a b : Nat} {pt rt : Tour}
+    {shrunk : Option Tour} {path : List Nat} {ins : Tour × Option (List Nat)} {w : Work} {site1 site2 : String}
+    (hi : ListInv s) (hd : DummyInv s) (ho : ToursOK nw s.tours) (hdo : DummiesOK nw s.dummyTours)
+    (hpt' : unwrapO (s.tourOf? p) site1 = .ok pt) (hrt' : unwrapO (s.tourOf? r) site2 = .ok rt)
+    (hrem : Tour.remove nw pt a b = .ok (shrunk, path))
+    (hins : insertPath nw true rt path = .ok ins)
+    (hut : updateTours nw s (Work.ofSchedule s) (some p) shrunk r ins.1 path = .ok w) :
+    DummiesOK nw w.dummyTours ∧ ∀ np, ins.2 = some np → PW nw np := by
+  have hpt := unwrapO_ok hpt'
+  have hrt := unwrapO_ok hrt'
+  obtain ⟨hptpw, _⟩ := tour_pw hn hi hd ho hdo hpt
+  obtain ⟨hrtpw, hrtne⟩ := tour_pw hn hi hd ho hdo hrt
+  have hpathpw := removed_pw hptpw hrem
+  constructor
+  · apply updateTours_dok hdo ?_ ?_ hut
+    · intro hdm t ht
+      subst ht
+      exact remove_dummyOK (hdo p pt (tourOf_dummy hi hd hpt hdm)) hrem
+    · intro hdm
+      have hrtd := hdo r rt (tourOf_dummy hi hd hrt hdm)
+      have hinner : InnerAct nw path := by
+        obtain ⟨s0, e0, _, _, hsp, _, _⟩ := remove_split hrem
+        by_cases hpd : s.isDummy p = true
+        · have hptd := hdo p pt (tourOf_dummy hi hd hpt hpd)
+          exact innerAct_of_acts (fun x hx => hptd.acts x (by rw [hsp]; simp [hx]))
+        · exact innerAct_of_contig hn.dt hn.wf hn.ap (ho p pt (tourOf_not_dummy hpt (by simpa using hpd))) hsp
+      exact insert_dummyOK nw hn.dt hn.wf hn.ap rt ins.1 path ins.2 hrtd hpathpw (strip_nodepot hinner) hins
+  · intro np hnp
+    have hsub := insert_rm_sublist nw hn.dt hn.wf rt ins.1 path np (timeChain_of_pw nw rt.nodes hrtpw) hrtne
+      (by rw [← hnp]; exact hins)
+    exact pw_sublist hsub hrtpw
+
+theorem override_dok {nw : Network} (hn : NetHyp nw) {s s' : Schedule} {p r : Veh} {a b : Nat} {d : Option Veh}
+    (hi : ListInv s) (hd : DummyInv s) (ho : ToursOK nw s.tours) (hdo : DummiesOK nw s.dummyTours)
+    (h : overrideReassign nw s p r a b = .ok (s', d)) : DummiesOK nw s'.dummyTours := by
+  unfold overrideReassign at h
+  inv_do h
+  all_goals (try contradiction)
+  all_goals (try (cases h))
+  all_goals (try (simp only [pure, Except.pure, Except.ok.injEq] at *))
+  all_goals (try subst_vars)
+  all_goals (
+    obtain ⟨hw, hnp⟩ := override_parts (p := p) (r := r) hn hi hd ho hdo (by assumption) (by assumption) (by assumption)
+      (by assumption) (by assumption)
+    try dsimp only
+    first
+    | exact hw
+    | exact dok_set hw (newDummy_ok (hnp _ (by assumption)) (by assumption))
+    | exact dok_addDummy hw (newDummy_ok (hnp _ (by assumption)) (by assumption))
+    | exact dok_of_addDummy_eq hw (newDummy_ok (hnp _ (by assumption)) (by assumption)) (by assumption)
+    | trace_state)
+
+/-! ### every public modification, every history -/
+
+/-- the invariant: vehicle listing, dummy keys, valid real tours, valid dummy tours, and the
+    formation counts -/
+structure Inv (nw : Network) (s : Schedule) : Prop where
+  tinv : TInv nw s
+  dok : DummiesOK nw s.dummyTours
+  forms : FormCount nw s.tours s.formations
+
+theorem dok_step (nw : Network) (hn : NetHyp nw) (s : Schedule) (op : SOp) (r : OpResult)
+    (hinv : Inv nw s) (h : applyOp nw s op = .ok r) : DummiesOK nw r.sched.dummyTours := by
+  obtain ⟨⟨hi, hd, ho⟩, hdo, _⟩ := hinv
+  unfold applyOp at h
+  cases op with
+  | init =>
+    simp only [pure, Except.pure, Except.ok.injEq] at h
+    rw [← h]; intro d t hget; simp [Schedule.empty, assocGet?_nil] at hget
+  | spawn vt path =>
+    obtain ⟨⟨s', v⟩, hs, h⟩ := bind_ok h
+    simp only [pure, Except.pure, Except.ok.injEq] at h
+    rw [← h]; show DummiesOK nw s'.dummyTours; rw [spawn_dummyTours hs]; exact hdo
+  | dummySpawn d vt =>
+    obtain ⟨⟨s', v⟩, hs, h⟩ := bind_ok h
+    simp only [pure, Except.pure, Except.ok.injEq] at h
+    rw [← h]; exact dummySpawn_dok hdo hs
+  | delete v =>
+    obtain ⟨s', hs, h⟩ := bind_ok h
+    simp only [pure, Except.pure, Except.ok.injEq] at h
+    rw [← h]; exact delete_dok hn ho hdo hs
+  | addPath v path =>
+    dsimp only at h
+    split at h
+    · obtain ⟨⟨s', rm⟩, hs, h⟩ := bind_ok h
+      simp only [pure, Except.pure, Except.ok.injEq] at h
+      rw [← h]; show DummiesOK nw s'.dummyTours; rw [addPath_dummyTours hs]; exact hdo
+    · cases h
+  | rmSeg v a b =>
+    obtain ⟨s', hs, h⟩ := bind_ok h
+    simp only [pure, Except.pure, Except.ok.injEq] at h
+    rw [← h]; exact rmSeg_dok hn hi hd ho hdo hs
+  | fit p q a b =>
+    obtain ⟨s', hs, h⟩ := bind_ok h
+    simp only [pure, Except.pure, Except.ok.injEq] at h
+    rw [← h]; exact fit_dok hn hi hd ho hdo hs
+  | override p q a b =>
+    obtain ⟨⟨s', d⟩, hs, h⟩ := bind_ok h
+    simp only [pure, Except.pure, Except.ok.injEq] at h
+    rw [← h]; exact override_dok hn hi hd ho hdo hs
+  | improve vs =>
+    obtain ⟨s', hs, h⟩ := bind_ok h
+    simp only [pure, Except.pure, Except.ok.injEq] at h
+    rw [← h]; show DummiesOK nw s'.dummyTours; rw [improve_dummyTours hs]; exact hdo
+  | endGreedy =>
+    obtain ⟨s', hs, h⟩ := bind_ok h
+    simp only [pure, Except.pure, Except.ok.injEq] at h
+    rw [← h]; show DummiesOK nw s'.dummyTours; rw [endGreedy_dummyTours hs]; exact hdo
+  | recompute vts =>
+    obtain ⟨s', hs, h⟩ := bind_ok h
+    simp only [pure, Except.pure, Except.ok.injEq] at h
+    rw [← h]; show DummiesOK nw s'.dummyTours; rw [recompute_dummyTours hs]; exact hdo
+  | endConsistent =>
+    obtain ⟨s', hs, h⟩ := bind_ok h
+    simp only [pure, Except.pure, Except.ok.injEq] at h
+    rw [← h]; show DummiesOK nw s'.dummyTours
+    rw [(C05.C05_reassign nw s s' hs).2.2.2.2.1]; exact hdo
+  | setTrans vt v ci =>
+    obtain ⟨tr, _, h⟩ := bind_ok h
+    obtain ⟨moved, _, h⟩ := bind_ok h
+    simp only [pure, Except.pure, Except.ok.injEq] at h
+    rw [← h]; exact hdo
+
+/-- **C10 (formation membership, dummy tours), one step**: every public modification of the model —
+    with provider ≠ receiver for reassignments — preserves the invariant -/
+theorem C10_forms_step (nw : Network) (hn : NetHyp nw) (s : Schedule) (op : SOp) (r : OpResult)
+    (hinv : Inv nw s) (hargs : ArgsOKF op) (h : applyOp nw s op = .ok r) : Inv nw r.sched := by
+  have ht := C10_tours_step nw hn.dt hn.wf s op r hinv.tinv h
+  have hd := dok_step nw hn s op r hinv h
+  refine ⟨ht, hd, ?_⟩
+  by_cases hfit : ∃ p q a b, op = .fit p q a b
+  · obtain ⟨p, q, a, b, rfl⟩ := hfit
+    unfold applyOp at h
+    obtain ⟨s', hs, h⟩ := bind_ok h
+    simp only [pure, Except.pure, Except.ok.injEq] at h
+    rw [← h]
+    exact fit_forms hn hinv.tinv.listing hinv.tinv.dummies hinv.tinv.tours hinv.dok hinv.forms hargs hs
+  · exact forms_step_noFit nw hn s op r ⟨hinv.tinv, hinv.forms⟩ hargs
+      (fun p q a b e => hfit ⟨p, q, a, b, e⟩) h
+
+theorem empty_inv (nw : Network) : Inv nw (Schedule.empty nw) := by
+  refine ⟨⟨empty_listInv nw, by intro d hd; simp [Schedule.empty, assocGet?_nil] at hd,
+    by intro v t hv; simp [Schedule.empty, assocGet?_nil] at hv⟩,
+    by intro d t hget; simp [Schedule.empty, assocGet?_nil] at hget, ?_⟩
+  intro n v
+  show (formOf (Schedule.empty nw).formations n).count v = tourOcc nw [] v n
+  have : ∀ f, assocGet? (Schedule.empty nw).formations n = some f → f = [] := by
+    intro f hf'
+    have hm := assocGet?_mem hf'
+    simp only [Schedule.empty, List.mem_map, Prod.mk.injEq] at hm
+    obtain ⟨_, _, _, rfl⟩ := hm; rfl
+  unfold formOf tourOcc
+  cases hg : assocGet? (Schedule.empty nw).formations n with
+  | none => simp [assocGet?_nil]
+  | some f => rw [this f hg]; simp [assocGet?_nil]
+
+theorem C10_forms_reachable (nw : Network) (hn : NetHyp nw) : ∀ (ops : List SOp) (s s' : Schedule),
+    Inv nw s → (∀ op ∈ ops, ArgsOKF op) → runOps nw s ops = some s' → Inv nw s'
+  | [], s, s', hinv, _, h => by simp only [runOps, Option.some.injEq] at h; rw [← h]; exact hinv
+  | op :: rest, s, s', hinv, hargs, h => by
+    unfold runOps at h
+    split at h
+    · rename_i r hr
+      exact C10_forms_reachable nw hn rest r.sched s'
+        (C10_forms_step nw hn s op r hinv (hargs op (by simp)) hr) (fun o ho => hargs o (by simp [ho])) h
+    · cases h
+
+/-- **C10 / C03 (formation membership and dummy tours), every history**: in every schedule the
+    model reaches from the empty schedule by public modifications (provider ≠ receiver in
+    reassignments), for every node and every vehicle the number of times the vehicle is listed in the
+    node's formation equals the number of times the node occurs among the activities of the vehicle's
+    tour; every dummy tour is a non-empty, time-ordered list of activities -/
+theorem C10_forms_from_empty (nw : Network) (hn : NetHyp nw) (ops : List SOp) (s' : Schedule)
+    (hargs : ∀ op ∈ ops, ArgsOKF op) (h : runOps nw (Schedule.empty nw) ops = some s') : Inv nw s' :=
+  C10_forms_reachable nw hn ops _ s' (empty_inv nw) hargs h
+
+/-! ### what the counts mean -/
+
+theorem occ_le_one {nw : Network} {l : List Nat} (hn : l.Nodup) (n : Nat) : occ nw l n ≤ 1 := by
+  unfold occ
+  have : (l.filter (fun x => !(nw.node x).isDepot)).Nodup := List.Nodup.sublist List.filter_sublist hn
+  exact List.nodup_iff_count.mp this n
+
+theorem occ_pos_iff {nw : Network} {l : List Nat} (n : Nat) :
+    0 < occ nw l n ↔ n ∈ l ∧ (nw.node n).isDepot = false := by
+  unfold occ
+  rw [List.count_pos_iff, List.mem_filter]
+  simp
+
+/-- **formation membership**: a vehicle is listed at most once in every formation, and it is listed
+    in the formation of `n` iff `n` is an activity on its own tour -/
+theorem C10_formation_membership {nw : Network} (hn : NetHyp nw) {s : Schedule} (hinv : Inv nw s) (n : Nat) :
+    (formOf s.formations n).Nodup ∧
+    ∀ v, v ∈ formOf s.formations n ↔ ∃ t, assocGet? s.tours v = some t ∧ n ∈ t.nodes ∧ (nw.node n).isDepot = false := by
+  have hle : ∀ v, tourOcc nw s.tours v n ≤ 1 := by
+    intro v
+    unfold tourOcc
+    cases hg : assocGet? s.tours v with
+    | none => simp
+    | some t => exact occ_le_one (tourOK_nodup hn.dt hn.wf hn.ap (hinv.tinv.tours v t hg)) n
+  constructor
+  · rw [List.nodup_iff_count]
+    intro v; rw [hinv.forms n v]; exact hle v
+  · intro v
+    rw [← List.count_pos_iff, hinv.forms n v]
+    unfold tourOcc
+    cases hg : assocGet? s.tours v with
+    | none => simp
+    | some t =>
+      simp only [Option.some.injEq, exists_eq_left']
+      exact occ_pos_iff n
+
 end RSSched.C10Fit
